@@ -351,6 +351,44 @@ func GenLeaf(r *hx.Rng, kind string) []byte {
 			}
 		}
 		return Box(kind, body)
+	case "uuid":
+		tfxd := []byte{0x6d, 0x1d, 0x9b, 0x05, 0x42, 0xd5, 0x44, 0xe6, 0x80, 0xe2, 0x14, 0x1d, 0xaf, 0xf7, 0x57, 0xb2}
+		tfrf := []byte{0xd4, 0x80, 0x7e, 0xf2, 0xca, 0x39, 0x46, 0x95, 0x8e, 0x54, 0x26, 0xcb, 0x9e, 0x46, 0xa7, 0x9f}
+		piff := []byte{0xa2, 0x39, 0x4f, 0x52, 0x5a, 0x9b, 0x4f, 0x14, 0xa2, 0x44, 0x6c, 0x42, 0x7c, 0x64, 0x8d, 0xf4}
+		ver := byte(r.Pick(0, 1, 1, 2))
+		w := func(v uint64) []byte {
+			if ver == 0 {
+				return U32(uint32(v))
+			}
+			return U64(v)
+		}
+		switch r.Intn(4) {
+		case 0:
+			return Box(kind, Cat(tfxd, vf(ver, uint32(r.Pick(0, 0, 1))), w(r64(r)), w(r64(r))))
+		case 1:
+			n := r.Intn(4)
+			body := Cat(tfrf, vf(ver, 0), []byte{byte(n)})
+			for i := 0; i < n; i++ {
+				body = Cat(body, w(r64(r)), w(r64(r)))
+			}
+			return Box(kind, body)
+		case 2:
+			cnt := 1 + r.Intn(3)
+			fl := uint32(r.Pick(0, 0, 2))
+			var raw []byte
+			for i := 0; i < cnt; i++ {
+				raw = append(raw, r.Bytes(8, nil)...)
+				if fl&2 != 0 {
+					k := r.Intn(3)
+					raw = append(raw, U16(uint16(k))...)
+					for j := 0; j < k; j++ {
+						raw = Cat(raw, U16(uint16(r.U64())), U32(r32(r)))
+					}
+				}
+			}
+			return Box(kind, Cat(piff, vf(0, fl), U32(uint32(cnt)), raw))
+		}
+		return Box(kind, Cat(r.Bytes(16, nil), r.Bytes(r.Intn(24), nil)))
 	case "subs":
 		ver := byte(r.Pick(0, 1, 1, 2))
 		n := r.Intn(4)
@@ -518,7 +556,7 @@ var GenKinds = []string{"ftyp", "styp", "free", "skip", "mdat", "mfhd", "tfhd", 
 	"stsc", "stsz", "stco", "stss", "co64", "sdtp", "ctts", "elst", "saiz", "saio", "sbgp", "prft", "tenc", "frma", "vmhd",
 	"smhd", "nmhd", "sthd", "mfro", "mehd", "tfra", "pssh",
 	"url ", "avcC", "btrt", "pasp", "colr", "clap", "schm", "cslg", "stsd", "dref", "avc1", "avc3", "hvc1", "hev1", "encv", "mp4a", "enca",
-	"senc", "emsg", "elng", "kind", "hvcC", "subs"}
+	"senc", "emsg", "elng", "kind", "hvcC", "subs", "uuid"}
 
 // Exhaustive returns well-formed boxes covering EVERY combination of the optional-field flag bits of the
 // boxes that have them (trun: 6 bits x version 0/1 x 0,1,3 samples; tfhd: 7 bits; tfdt, sidx, mvhd, tkhd,
